@@ -643,7 +643,7 @@ func (r *runner) judgePhase(pi int, ph Phase, callers []*callerRT, reqs []*reqRT
 					case cr.collateral >= 0:
 						res.Fail("C13:waiter-failed-by-owner-cancel", "phase %d caller %d (%s key=%s kid=%q, own context live) failed with %q: it was parked on the shared download, which ran on the context of caller %d and was aborted when that caller's context was cancelled; the endpoint serves its key (%s)",
 							pi, i, ca.Kind, ca.Key, ca.Kid, out.err, cr.collateral, D.Kind)
-					case errors.Is(out.err, context.Canceled) || errors.Is(out.err, context.DeadlineExceeded):
+					case !cr.cancelled && (errors.Is(out.err, context.Canceled) || errors.Is(out.err, context.DeadlineExceeded)):
 						res.Fail("C13:live-caller-cancelled", "phase %d caller %d (%s, own context live) failed with %q although no download it waited for ran on a cancelled context", pi, i, ca.Kind, out.err)
 					default:
 						res.Fail("C13:complete:"+why, "phase %d caller %d (%s key=%s kid=%q alg=%s, own context live) was rejected: %v; cached %v, endpoint script %s", pi, i, ca.Kind, ca.Key, ca.Kid, ca.Alg, out.err, cr.cacheAtStart, D.Kind)
